@@ -8,7 +8,7 @@ KINDS = meshes.FIRST_ORDER
 
 
 def topo_json(m, e):
-    dim = int(e.dim)
+    dim = int(e.refdom.dim())     # Dofs uses the dimension of the reference domain (FC19b)
     edges = m.edges if (m.dim() == 3) else None
     return {
         "dim": dim, "nverts": int(m.nvertices), "nedges": int(edges.shape[1]) if edges is not None else 0,
